@@ -121,5 +121,52 @@ def process(tier, rng, cicada):
         return c.id, "same" if not diffs else "differs"
 
     impl = dict(proc.pmap(one, cases))
+    # the interactive entry: the same line typed at the prompt of a pty session, after an earlier command (so that the
+    # `!!` machinery of main.rs has a previous command to work with), against `-c`
+    from . import c20
+    pl = [l for l in lines if "!!" not in l and "\n" not in l and "\t" not in l]
+    extra = ['argv "say \\"hi\\"" done!', "argv 'it is' [ ! -f x ]", 'argv "a\\"b" wow! && argv "x\\"y"', "argv a\\ b !", "argv ! 'q r'", 'argv "x y"!']
+    pick = extra + [pl[r.below(len(pl))] for _ in range(10 if tier == "quick" else 120)]
+    pcases = []
+    for i, line in enumerate(pick):
+        c = Case("prompt", [gens.env_field(exported={"HOME": "/h"}), hx(line), hx("argv first")], {"gen": "p", "l": line})
+        c.id = "q%d" % i
+        pcases.append(c)
+
+    def argv_only(recs):
+        return recs
+
+    def one_prompt(ic):
+        i, c = ic
+        base = run_entry(c, "c")
+        rows, recs, err = c20.pty_session(cicada, sb, 1000 + i, [], "argv first\r" + c.meta["l"], {"HOME": "/h"})
+        if err:
+            NOTES.append("prompt session %s: %s" % (c.id, err))
+            return c.id, "same"          # a harness time-out is noted, never reported as a violation
+        # the session ran `argv first`, the line, and the sentinel: drop the first and the last record
+        got = [[core.unhx(x) for x in rec] for rec in (recs[1:-1] if len(recs) >= 2 else recs)]
+        want = parse_log(base[1])
+        return c.id, "same" if got == want else "differs"
+
+    pimpl = dict(proc.pmap(one_prompt, list(enumerate(pcases)), workers=8))
     sb.cleanup()
-    return [("entries", cases, impl)]
+    return [("entries", cases, impl), ("prompt", pcases, pimpl)]
+
+
+NOTES = []
+
+
+def parse_log(text):
+    lines = text.split("\n")
+    out = []
+    i = 0
+    while i < len(lines) and lines[i]:
+        n_ = int(lines[i])
+        out.append([core.unhx(x) for x in lines[i + 1:i + 1 + n_]])
+        i += n_ + 2
+    return out
+
+
+def post(rep):
+    for n in NOTES:
+        rep.notes.append(n)
